@@ -6,7 +6,7 @@ sys.path.insert(0, "/verif")
 import check
 REPO = "/repo"
 out = {}
-files = ["Consts", "HelpersR", "SigCore", "SigSchemes", "PoK", "SignCrypt", "TimeLock", "ElGamal", "WSig", "WPoK", "WEnc", "WCodec"]
+files = ["Consts", "HelpersR", "SigCore", "SigSchemes", "PoK", "SignCrypt", "TimeLock", "ElGamal", "WSig", "WPoK", "WEnc", "WCodec", "WEnum"]
 assert not subprocess.run(["git", "-C", REPO, "status", "--porcelain"], capture_output=True).stdout.strip()
 for d in sorted(glob.glob("/verif/seeded/C*-m*")):
     sid = os.path.basename(d)
